@@ -117,7 +117,7 @@ def contracts(chk, repo, clause_b, clause_d, clause_e, clause_i, clause_conserve
             prop_shift = nf.app('copy', c_prop[0].result) - nf.app('copy', c_int[0].result)
             want_shift = prop_shift + shift - fix_shift
         ob('transform shift = window recentring + sub-pixel part of the tilt shift',
-           want_shift is not None and b.get('shift') == want_shift,
+           want_shift is not None and nf.strip_apps(b.get('shift')) == nf.strip_apps(want_shift),
            f'shift = {fmt(b.get("shift"))[:160]}', ed, cl=cc)
         # --- output field
         if len(fl.fields) != 1:
